@@ -18,6 +18,11 @@ def setup_ops(rng, cfg):
             ops.append(f"{o} set dynamic_payloads T")
         else:
             ops += [f"{o} set dynamic_payloads F", f"{o} set payload_length {cfg['plen']}"]
+            if o == "b" and cfg.get("mixed"):
+                # the receiver's other pipes expect other static lengths: only pipe `pipe` has the sender's
+                lens = [rng.randint(1, 32) for _ in range(6)]
+                lens[pipe] = cfg["plen"]
+                ops.append(f"b set payload_length [{','.join(map(str, lens))}]")
         ops.append(f"{o} set allow_ask_no_ack {'T' if cfg['dynack'] else 'F'}")
     if pipe >= 2:
         other = bytes([base[0] ^ 0x55]) + base[1:]
@@ -34,7 +39,8 @@ def setup_ops(rng, cfg):
 def rand_cfg(rng):
     return {"aw": rng.choice([3, 4, 5]), "pipe": rng.randrange(6), "ch": rng.randint(0, 125),
             "rate": rng.choice([1, 2, 250]), "crc": rng.choice([0, 1, 2]), "aa": rng.random() < 0.8,
-            "dyn": rng.random() < 0.5, "plen": rng.randint(1, 32), "dynack": rng.random() < 0.5}
+            "dyn": rng.random() < 0.5, "plen": rng.randint(1, 32), "dynack": rng.random() < 0.5,
+            "mixed": rng.random() < 0.5}
 
 
 def session(rng, cfg, nsend, lens=None):
